@@ -51,10 +51,10 @@ def jobs_for(tier):
 
 
 def run_tool(jobs, out, budget):
-    spec = {"seed": seed(), "threads": __import__("lib").worker_threads(0.5), "lp_limit": 250, "jobs": jobs}
+    spec = {"seed": seed(), "threads": __import__("lib").worker_threads(0.8), "lp_limit": 250, "worker_mem_kb": 6_000_000, "jobs": jobs}
     jp = os.path.join(out, "jobs.json")
     json.dump(spec, open(jp, "w"))
-    cmd = f"ulimit -v 24000000; exec timeout {budget} {os.path.join(BIN, 'pipeline_tool')} {jp} {out}"
+    cmd = f"exec timeout {budget} {os.path.join(BIN, 'pipeline_tool')} {jp} {out}"
     r = subprocess.run(["bash", "-c", cmd], stdout=subprocess.PIPE, stderr=subprocess.STDOUT, text=True)
     return r.returncode, r.stdout
 
@@ -101,18 +101,31 @@ def main(tier, replay=None):
     rc, o = run_tool(jobs, out, budget)
     log("[pipeline_tool] " + (o or "").strip().splitlines()[-1] if o and o.strip() else f"[pipeline_tool] rc={rc}")
     if rc != 0:
-        # crash (abort / stack overflow / allocation failure) or hang: the in-flight inputs are the suspects
-        suspects = []
-        for f in glob.glob(os.path.join(out, "inflight.*")):
-            try:
-                suspects.append(json.load(open(f)))
-            except Exception:
-                pass
-        kind = "hang" if rc == 124 else "abort"
-        log(f"[C14] pipeline_tool ended with rc={rc} ({kind}); in-flight inputs: {[s.get('id') for s in suspects]}")
-        # We cannot tell which in-flight input is responsible without re-running each alone; report as tool error
-        # unless a single suspect reproduces alone.
-        raise ToolError(f"pipeline_tool {kind} rc={rc}; suspects={json.dumps(suspects)[:600]}")
+        raise ToolError(f"pipeline_tool (parent) ended with rc={rc}: {(o or '')[-400:]}")
+    # inputs that killed a worker process (abort: stack overflow / failed allocation under the 6 GB address-space limit;
+    # timeout: one input did not finish within 300 s): each is re-run alone before it is believed
+    crashes = json.load(open(os.path.join(out, "crashes.json")))
+    for c in crashes:
+        inp = c["input"]
+        one = clean_dir(workdir("c14", "confirm"))
+        if inp.get("felts") is not None:
+            cj = [{"id": inp["id"], "kind": "replay_felts", "class_path": inp.get("class_path"), "felts": inp["felts"]}]
+        elif inp.get("program_json"):
+            cj = [{"id": inp["id"], "kind": "replay_prog", "sierra": "", "program_json": inp["program_json"]}]
+        else:
+            log(f"[C14] worker died outside an input / on an unmutated input: {json.dumps(c)[:300]} (diagnostic)")
+            continue
+        json.dump({"seed": seed(), "threads": 1, "lp_limit": 250, "worker_mem_kb": 6_000_000, "jobs": cj}, open(os.path.join(one, "jobs.json"), "w"))
+        r2 = subprocess.run(["bash", "-c", f"CVH_INPUT_TIMEOUT_S=3000 exec timeout 3300 {os.path.join(BIN, 'pipeline_tool')} {one}/jobs.json {one}"],
+                            stdout=subprocess.PIPE, stderr=subprocess.STDOUT, text=True)
+        again = json.load(open(os.path.join(one, "crashes.json"))) if os.path.exists(os.path.join(one, "crashes.json")) else []
+        if again:
+            kind = again[0]["kind"]
+            key = {"kind": kind, "stage": "casm_class" if inp.get("felts") is not None else "program", "input_sha": __import__("lib").sha(inp.get("felts") or inp.get("program_json"))}
+            chk.violation(key, {"input": inp, "exit": again[0].get("exit")},
+                          f"{kind} (process died, exit {again[0].get('exit')}) while handling input {inp['id']} ({inp.get('plan') or inp.get('desc')}); reproduced alone")
+        else:
+            log(f"[C14] crash of {inp['id']} did not reproduce alone (diagnostic)")
     res, rep = validate(out, "stages")
     chk.add_tlc(res)
     inputs = {r["id"]: r for r in read_ndjson(os.path.join(out, "inputs.ndjson"))}
